@@ -168,6 +168,10 @@ func (ex *Exec) termEq(x, y *smt.Term) *smt.Term {
 	}
 	if ex.Ob.Param("no_oracle_rule", 0) == 0 {
 		if r := ex.genericZero(smt.Sub(x, y), 0); r != nil {
+			// keep the arithmetic consistent with the genericity verdict
+			if plain := smt.Eq(x, y); !plain.IsConst() && plain != r {
+				ex.assume(smt.Eq(r, plain))
+			}
 			return r
 		}
 	}
